@@ -230,6 +230,7 @@ define(sub_ok, [ks, ls], Or(KVs.is_knil(ks),
 # --- Python's == on the values that occur as hashable forms and atoms ---------------------------------
 pyeq = rec('pyeq', PyV, PyV, BoolS)
 pyeq_l = rec('pyeq_l', PyVs, PyVs, BoolS)
+pyeq_k = rec('pyeq_k', KVs, KVs, BoolS)
 
 
 def _numlike(v):
@@ -245,8 +246,15 @@ define(pyeq, [a, b],
           If(is_list(a), And(is_list(b), pyeq_l(PyV.litems(a), PyV.litems(b))),
              If(_numlike(a), And(_numlike(b), _numval(a) == _numval(b)),
                 If(is_nan(a), False,
-                   If(is_dict(a), And(is_dict(b), jeq_k(PyV.kvs(a), PyV.kvs(b))),   # not used
+                   # dict ==: same keys, values compared with == (NOT JSON equality: a list
+                   # is never == a tuple, True == 1).  Positional over the sorted association
+                   # lists that represent dicts with string keys.
+                   If(is_dict(a), And(is_dict(b), pyeq_k(PyV.kvs(a), PyV.kvs(b))),
                       a == b))))))
+define(pyeq_k, [ks, ls], If(KVs.is_knil(ks), KVs.is_knil(ls),
+                            And(KVs.is_kcons(ls), KVs.kk(ks) == KVs.kk(ls),
+                                pyeq(KVs.kv(ks), KVs.kv(ls)),
+                                pyeq_k(KVs.krest(ks), KVs.krest(ls)))))
 define(pyeq_l, [xs, ys], If(PyVs.is_nil(xs), PyVs.is_nil(ys),
                             And(PyVs.is_cons(ys), pyeq(PyVs.hd(xs), PyVs.hd(ys)),
                                 pyeq_l(PyVs.tl(xs), PyVs.tl(ys)))))
